@@ -9,6 +9,9 @@ Space: one-class models = product of
   thorough: the full product (262,144 files).
 Two-class files: all ordered pairs of a 30-shape sub-catalogue (member names chosen so that ids of the two classes
 interleave and index diffs > 1 occur); plus the DEX with no class, and a class without class_data.
+History: before every file a fixed DECOY file (classes La/A; and La/B; with every member of the alphabets, other class-level
+settings) is parsed and put through the same battery of lookups in the same process, so every file is judged in the state
+left behind by a different file that uses the same class and member names (multi-dex sessions do exactly this).
 Oracle: the generating model (order compared only where the file defines one).
 """
 import itertools
@@ -129,9 +132,16 @@ def descr(params, ret):
 
 
 # ------------------------------------------------------------------------------------------------ judging
-def judge(model):
-    """model: gen.dexgen.Dex -> list of (key, msg)"""
+_DECOY = []
+
+
+def judge(model, decoy=True, light=False):
+    """model: gen.dexgen.Dex -> list of (key, msg).  decoy: first run the decoy file through the lookups (results ignored)."""
     G = _G()
+    if decoy:
+        if not _DECOY:
+            _DECOY.append(pair_model((3, 3, 7, 15), (3, 3, 7, 15)))
+        judge(_DECOY[0], decoy=False, light=True)
     from androguard.core import dex
     out = []
     raw, layout = G.build(model, return_layout=True)
@@ -152,7 +162,7 @@ def judge(model):
     M0 = [(c.name, m.name, descr(m.params, m.ret)) for c in model.classes for m in c.dmethods + c.vmethods]
     F0 = [(c.name, f.name, f.type) for c in model.classes for f in c.sfields + c.ifields]
     for what, names, ref in (("method", sorted({m[1] for m in M0} | {"zz"}), M0), ("field", sorted({f[1] for f in F0} | {"zz"}), F0)):
-        for nm in names:
+        for nm in ([] if light else names):
             try:
                 fresh = dex.DEX(raw)
                 got = (fresh.get_encoded_method if what == "method" else fresh.get_encoded_field)(re.escape(nm))
@@ -281,6 +291,8 @@ def judge(model):
     except Exception as e:     # noqa
         import traceback
         bad("api:exception:%s" % type(e).__name__, "exception while querying: %s" % traceback.format_exc()[-900:])
+    if light:
+        return out
     # ---- non-initial state: the reported model must still be the file's after the object has been analysed and decompiled
     try:
         from androguard.core.analysis.analysis import Analysis
